@@ -1250,8 +1250,9 @@ fn generate(ctx: &Ctx) {
     // (C) all six scopes, depth-capped
     run_part(ctx, "C depth 4: 3 method ids, all six scopes, 1 service", 3, universe(&[0, 2], &[A_K1, B_K1, B_K2], &[], &all_scopes, &all_rels, &[A_K1], true), Some(5));
   } else {
-    // (A) 3 method ids x 3 relationships (insertion into 4 scopes) x 1 service to closure
-    run_part(ctx, "A closure: 3 method ids, 3 relationships, 1 service", 1, universe(&[0, 1, 2, 3, 5], &[A_K1, A_K2, B_K1], &[(A_K1, 2)], &[0, 1, 2, 3], &[1, 2, 3], &[A_K1], false), None);
+    // (A) 3 method ids x 3 relationships (insertion into 4 scopes) x 1 service to closure (body 0 only: the body with a
+    //     custom property is covered by A2 and A4; with it this part alone takes > 7 min)
+    run_part(ctx, "A closure: 3 method ids, 3 relationships, 1 service", 1, universe(&[0, 1, 2, 3, 5], &[A_K1, A_K2, B_K1], &[], &[0, 1, 2, 3], &[1, 2, 3], &[A_K1], false), None);
     // (A2) the quick closure: 3 method ids x 2 relationships x 2 services
     run_part(ctx, "A2 closure: 3 method ids, 2 relationships, 2 services", 4, universe(&[0, 1, 2, 3, 5], &[A_K1, A_K2, B_K1], &[(A_K1, 2)], &two, &[1, 2], &[A_S1, A_K1], false), None);
     // (A4) 4 method ids (two DIDs x two fragments), insertion into 3 scopes, references in authentication, 2 services
